@@ -27,6 +27,7 @@ fn main() {
         "C10" => c10::run(&tier),
         "C11" => c11::run(&tier),
         "C12" => c12::run(&tier),
+        "C13" => c13::run(&tier),
         _ => {
             eprintln!("unknown property {}", id);
             2
